@@ -49,17 +49,19 @@ MAX_REPORTED = 4        # violations written per failing predicate
 
 
 def plan(pid, tier):
-    """Bounds per tier: (MC configurations, GEN configurations, random batches)."""
+    """Bounds per tier: (MC configurations, GEN configurations, random batches).
+    shapes: d2 = every tree of depth <= 2; d3 = every depth-2 tree wrapped once more; c3 / c4 = every chain
+    op_n(..op_1(leaf)) of depth 3 / 4 over the reduced alphabet (a Plus on the spine has a leaf on its other side)."""
+    S, W = "small", "wide"
     if tier == "quick":
-        return ([dict(shape="d2", width="small")],
-                [dict(shape="d2", width="small", perbase=0)],
+        return ([dict(shape="d2", width=S), dict(shape="c3", width=S)],
+                [dict(shape="d2", width=S, perbase=0), dict(shape="c3", width=S, perbase=0)],
                 dict(batches=2, n=150, depth=6))
-    if pid == "C14":
-        return ([dict(shape="d2", width="wide"), dict(shape="d3", width="small")],
-                [dict(shape="d2", width="wide", perbase=0), dict(shape="d3", width="small", perbase=4)],
-                dict(batches=6, n=400, depth=6))
-    return ([dict(shape="d2", width="wide"), dict(shape="d3", width="small")],
-            [dict(shape="d2", width="wide", perbase=0), dict(shape="d3", width="small", perbase=3)],
+    c4 = 5 if pid == "C14" else 2
+    d3 = 4 if pid == "C14" else 3
+    return ([dict(shape="d2", width=W), dict(shape="c3", width=S), dict(shape="d3", width=S), dict(shape="c4", width=S)],
+            [dict(shape="d2", width=W, perbase=0), dict(shape="c3", width=S, perbase=0),
+             dict(shape="d3", width=S, perbase=d3), dict(shape="c4", width=S, perbase=c4)],
             dict(batches=6, n=400, depth=6))
 
 
